@@ -15,6 +15,9 @@ GROUPS = ["liver", "my-grp", "grp_2", "upper case"]
 METRICS = ["sq", "sq_std", "pq", "sq_dsc", "sq_assd", "tp"]
 
 
+NONFINITE = [None, "nan", "inf", "-inf", "NaN", "Inf", "Infinity", "-Infinity", "+inf", "1e999", "-1E999", "NAN"]
+
+
 def cell_text(v):
     if v is None:
         return ""
@@ -56,6 +59,15 @@ def one_table(ctx, groups, metrics, subjects, table, src):
         write_table(p, groups, metrics, subjects, table)
         with quiet():
             st = Panoptica_Statistic.from_file(p)
+        if ctx.rng.random() < 0.5:
+            # other read-only queries must not disturb later answers
+            with quiet():
+                for m in metrics:
+                    st.get_across_groups(m)
+                    for g in groups:
+                        st.get(g, m)
+                        st.get(g, m, remove_nones=True)
+            ctx.count("other_queries_first")
         if order == "lookup-first":
             check_lookup(ctx, inp, st, groups, metrics, subjects, cols)
         for (g, m), col in cols.items():
@@ -127,9 +139,9 @@ def rand_table(ctx, tag, i):
         row = []
         for c in range(W):
             if colmode[c] == "none":
-                row.append(rng.choice([None, "nan", "inf", "-inf"]))
+                row.append(rng.choice(NONFINITE))
             elif colmode[c] == "mixed" and rng.random() < 0.35:
-                row.append(rng.choice([None, "nan", "inf", "-inf"]))
+                row.append(rng.choice(NONFINITE))
             else:
                 row.append(rng.choice([rng.random(), rng.randint(0, 9) / 10, rng.randint(0, 5), rng.random() * 100, 0.9, 0.2]))
         table.append(row)
